@@ -17,6 +17,8 @@ pub(crate) struct Html5Serializer<'a, N: Normalizer> {
     cdata_section_names: &'a [NameId],
     fullname_serializer: FullnameSerializer<'a>,
     normalizer: N,
+    // the node the serialization starts from
+    top: Node,
 }
 
 fn html_matches_suppress(
@@ -73,6 +75,7 @@ impl<'a, N: Normalizer> Html5Serializer<'a, N> {
             cdata_section_names,
             fullname_serializer,
             normalizer,
+            top: node,
         }
     }
 
@@ -306,10 +309,14 @@ impl<'a, N: Normalizer> Html5Serializer<'a, N> {
                     .parent(node)
                     .and_then(|parent| self.xot.element(parent));
                 let value = if let Some(element) = element {
-                    if self
-                        .html5_elements
-                        .no_escape_names
-                        .matches(self.xot, element.name())
+                    // the text of script and style is written raw only
+                    // within their tags; a text node serialized on its own
+                    // has no such tags around it
+                    if node != self.top
+                        && self
+                            .html5_elements
+                            .no_escape_names
+                            .matches(self.xot, element.name())
                     {
                         serialize_text_no_escape((*text).into(), &self.normalizer).to_string()
                     } else if self.cdata_section_names.contains(&element.name()) {
